@@ -20,4 +20,21 @@ for n in range(0, 4):
                 if (set(start), set(stop), count) != exp:
                     verdict(True, "search_result_from_parent_map is not (keys - parents, (parents - keys) - missing, count)",
                             input=dict(parent_map=str(pm), missing=str(missing)), observed=str((start, stop, count)), expected=str(exp))
+# the depth-limited recipe: its stop keys do not depend on which parents the client believes to be ghosts (a ghost may have been
+# filled on the server since), and every parent outside the walked region is a stop key
+for n in range(1, 4):
+    for ks in itertools.combinations(keys[:3], n):
+        opts = [tuple(c) for m in range(1, 3) for c in itertools.combinations([b"a", b"b", b"c", b"g", b"x"], m)]
+        for parents in itertools.product(opts[:10], repeat=len(ks)):
+            pm = {k: tuple(p for p in ps if p != k) for k, ps in zip(ks, parents)}
+            for tips in ([b"x"], [b"g"], [b"a"]):
+                tried += 1
+                try:
+                    base_res = vf_search.limited_search_result_from_parent_map(pm, set(), tips, 1)
+                    ghost_res = vf_search.limited_search_result_from_parent_map(pm, {b"g"}, tips, 1)
+                except Exception:  # noqa  (shapes the searcher rejects, e.g. cycles)
+                    continue
+                if (set(base_res[0]), set(base_res[1]), base_res[2]) != (set(ghost_res[0]), set(ghost_res[1]), ghost_res[2]):
+                    verdict(True, "the depth-limited recipe changes with the client's belief that a parent is a ghost (stop keys were filtered)",
+                            input=dict(parent_map=str(pm), tips=str(tips)), observed=str(ghost_res), expected=str(base_res))
 verdict(False, "no failing input among %d" % tried)
